@@ -112,25 +112,27 @@ type tally struct {
 	notApplicable     int64
 	pipeErr           int64
 	roundtripTexts    int64
+	reordered         int64 // executions with the options listed in another order than the canonical one
 }
 
 func newTally() *tally { return &tally{outcomes: map[string]int64{}, tookLines: map[string]int64{}} }
 
 type explorer struct {
-	r        *report.R
-	allKinds []string
-	maxLen   int      // texts up to this length are the primary space
-	seed     int      // VERIF_SEED folded to a small non-negative number
-	seenSink sync.Map // sink texts already sent through the consumer
-	slots    []*slot
-	free     chan *slot
-	ambig    atomic.Int64
-	linesMu  sync.Mutex
-	lines    map[string]int64
-	napp     atomic.Int64
-	pipeErr  atomic.Int64
-	rtTexts  atomic.Int64
-	sampleN  atomic.Int64
+	r         *report.R
+	allKinds  []string
+	maxLen    int      // texts up to this length are the primary space
+	seed      int      // VERIF_SEED folded to a small non-negative number
+	seenSink  sync.Map // sink texts already sent through the consumer
+	slots     []*slot
+	free      chan *slot
+	ambig     atomic.Int64
+	linesMu   sync.Mutex
+	lines     map[string]int64
+	napp      atomic.Int64
+	pipeErr   atomic.Int64
+	rtTexts   atomic.Int64
+	reordered atomic.Int64
+	sampleN   atomic.Int64
 
 	seqSamples   atomic.Int64
 	faultSamples int
@@ -203,6 +205,21 @@ func (e *explorer) shard(idx int, text string, sets []Opts) {
 				}
 			}
 		}
+		// the order in which the options are listed: the property speaks of option SETS, so every
+		// other listing of the same options must pass the same oracle (fresh destinations)
+		for ord := 1; ord < numOrders(o); ord++ {
+			oo := o
+			oo.Order = ord
+			for _, kind := range e.allKinds {
+				v, ok := x.evalSingle(kind, oo, 0)
+				if !ok {
+					t.notApplicable++
+					continue
+				}
+				e.record(t, Case{Kind: kind, Text: text, Opts: oo}, v)
+				t.reordered++
+			}
+		}
 		for _, kind := range preKinds {
 			if kind == "to:*[][]string" && (o.CRLF || o.WComma) {
 				continue // writer options do not reach a record table (checked with the fresh destination above)
@@ -247,6 +264,7 @@ func (e *explorer) shard(idx int, text string, sets []Opts) {
 	e.napp.Add(t.notApplicable)
 	e.pipeErr.Add(t.pipeErr)
 	e.rtTexts.Add(t.roundtripTexts)
+	e.reordered.Add(t.reordered)
 }
 
 // watchdog: a goroutine-using case (WriterTo pipe) that has not returned after 30 s is
@@ -506,6 +524,23 @@ func main() {
 		e.shard(idx, texts[idx], setsOf[len(texts[idx])])
 	})
 
+	// record-count axis: tables of up to 5 (thorough 6) records of 1..3 fields, through the same shard
+	// (every kind, option-list orders, destination pre-states; the hostile caller acts on every
+	// delivered table of the whole run)
+	maxRecs := 5
+	if r.Thorough() {
+		maxRecs = 6
+	}
+	tables := tableTexts(maxRecs, maxLen)
+	tableSets := skipPairSets()
+	enum.Parallel(len(tables), r.OutOfTime, func(i int) {
+		idx := (i + e.seed) % len(tables)
+		e.shard(idx, tables[idx], tableSets)
+	})
+	r.Set("record_count_axis", map[string]any{"texts": len(tables), "shape": "every sequence of 1.." + strconv.Itoa(maxRecs) + " records of 1, 2 or 3 fields \"a\" (ragged included), longer than the primary texts",
+		"option_sets": len(tableSets), "option_sets_name": "default_singles_skip_pairs", "kinds": "all, with option-list orders and destination pre-states as in the primary space"})
+	r.Set("hostile_caller", "after every Consume into a *[][]string (all texts, option sets, pre-states) the caller writes over the whole storage of each delivered record in turn (fields and spare capacity, i.e. what append would touch); every other record must keep its delivered text; reported with the address-range overlap test as class alias")
+
 	// shared-instance sequences
 	base := func(ks []string) []string { return ks[:8] } // the 8 documented kinds of each direction
 	sweeps := []*seqSweep{{name: "pairs_all_kinds", kindsC: consumeKinds, kindsP: produceKinds, texts: seqTexts[:5], length: 2, sets: pairSets()}}
@@ -547,10 +582,13 @@ func main() {
 	r.Set("record_table_sources_without_input_(text_does_not_parse)", e.napp.Load())
 	r.Set("chunked_writerto_calls_that_returned_closed_pipe_instead_of_the_parser_error_(scheduling_dependent,_not_judged)", e.pipeErr.Load())
 	r.Set("codec_written_texts_fed_back_to_the_consumer", e.rtTexts.Load())
+	r.Set("option_list_orders", map[string]any{"axis": "every permutation of the listed options (WithCSVReaderOpts, WithCSVWriterOpts, WithCSVSkipLines) that express the option set: 1, 2 or 6 orders for 1, 2 or 3 listed options",
+		"applies_to":                            "every option set of every tier x every text x every kind (fresh destinations); judged by the same oracle, which does not see the order",
+		"executions_with_a_non_canonical_order": e.reordered.Load()})
 	r.Assume("encoding/csv (reader and writer of the Go standard library) is the definition of 'a standard CSV parse'",
 		"the reference reader is configured directly from the abstract option set, never through the code under test",
 		"a WriterTo source writes its text in one Write (as bytes.Buffer does); the variant that writes byte by byte is held to 'some error' on malformed input, because which goroutine's error wins is scheduling")
 	// overlapping calls on one codec value: every schedule within the preemption bound (controlled scheduler)
 	codecScheduleSweep(r)
-	r.Finish("every text over the 8-symbol alphabet up to the stated length x every kind (9 consumer destinations, 13 producer sources) x the option sets of the text's length tier (full product of the 9 option axes on the shortest texts, then default+singles+pairs, then default+singles[+pairs with a skip count]) x destination pre-states of *[][]string / *[]byte / *string, plus every consumer destination on each distinct longer text the codec itself wrote; plus shared-instance sequences: one CSVConsumer / CSVProducer value serving 2 (thorough also 3) consecutive calls, every ordered tuple of (kind, text) calls over the stated colliding texts per option set, every call compared with the same call on a fresh instance; plus environment faults: for the 16 documented kinds x 5 texts (one above 4096 bytes) x 4 option sets, one execution per destination-side and per source-side operation of the fault-free run with exactly that operation failing, a delivered fault must come back as an error; one evaluation = one Consume or Produce call on the real codec compared with encoding/csv; non-trivial = the call delivered at least one record, returned an error or panicked (distinct by construction: the enumerator never repeats a (kind, text, options, pre-state) tuple nor a (options, call sequence) tuple; codec-written texts are deduplicated and only used when longer than the longest enumerated text)", true)
+	r.Finish("every text over the 8-symbol alphabet up to the stated length x every kind (9 consumer destinations, 13 producer sources) x the option sets of the text's length tier (full product of the 9 option axes on the shortest texts, then default+singles+pairs, then default+singles[+pairs with a skip count]) x every order in which the options expressing the set can be listed in the constructor call (k! listings of k <= 3 options, fresh destinations) x destination pre-states of *[][]string / *[]byte / *string (canonical listing), plus every consumer destination on each distinct longer text the codec itself wrote; plus the record-count axis: every sequence of up to 5 (thorough 6) records of 1..3 fields not already in the primary space, default+singles+pairs-with-a-skip-count option sets, through the same kinds, orders and pre-states; every table delivered into a *[][]string is then handed to a hostile caller that writes over the storage (fields and spare capacity) of each record in turn, after which all other records must be unchanged; plus shared-instance sequences: one CSVConsumer / CSVProducer value serving 2 (thorough also 3) consecutive calls, every ordered tuple of (kind, text) calls over the stated colliding texts per option set, every call compared with the same call on a fresh instance; plus environment faults: for the 16 documented kinds x 5 texts (one above 4096 bytes) x 4 option sets, one execution per destination-side and per source-side operation of the fault-free run with exactly that operation failing, a delivered fault must come back as an error; one evaluation = one Consume or Produce call on the real codec compared with encoding/csv; non-trivial = the call delivered at least one record, returned an error or panicked (distinct by construction: the enumerator never repeats a (kind, text, options, option-list order, pre-state) tuple nor a (options, call sequence) tuple; codec-written texts are deduplicated and only used when longer than the longest enumerated text)", true)
 }
